@@ -62,10 +62,12 @@ structure CPoint.WF (R : K → Prop) (p : CPoint K) : Prop where
   rep : (match p.xy with | some v => R v.1 ∧ R v.2 | none => True) ∧ (match p.z with | some z => R z | none => True)
 
 
-/-- a coordinate observation agrees with the point's coordinates: what `process_coords_point → process_point`
-    establishes (the observed coordinates overwrite the approximate ones) -/
+/-- the point named by a coordinate observation has the coordinate groups the observation has: what
+    `process_coords_point → process_point(atts, true)` establishes.  Since 6848bc2a the observed values do NOT replace
+    coordinates the point already has, so the values need not be equal (before, the clause was `p.xy = c.xy`, `p.z = c.z`:
+    the observed coordinates overwrote the approximate ones — and the adjusted ones of an export) -/
 def agrees (p : Point K) (c : CPoint K) : Prop :=
-  (∀ v, c.xy = some v → p.xy = some v) ∧ (∀ v, c.z = some v → p.z = some v)
+  (c.xy.isSome = true → p.xy.isSome = true) ∧ (c.z.isSome = true → p.z.isSome = true)
 
 
 /-- invariants of a cluster; `gons` = the unit of the output, `ps` = the active points (`s0` = sigma-apr: needed until
